@@ -17,7 +17,7 @@ KINDS = ["a", "b", "c"]
 _LID = H.nid
 
 
-def call(fn):
+def _call(fn):
     try:
         return fn()
     except Exception as e:  # noqa: BLE001
@@ -189,6 +189,16 @@ class Prop:
 
     # ----- one case: build, observe implementation, oracle
     def run(self, desc) -> Case:
+        if "hist" not in desc:
+            return self._run(desc)
+        try:
+            return self._run(desc)
+        except Exception as e:  # noqa: BLE001 - the node graph reached through the history cannot even be observed
+            return Case(desc=desc, coq_input="([], [])", impl_obs=[-424242], nontrivial=True,
+                        oracle_fail=f"the tree reached through the history cannot be observed: {type(e).__name__}: {e}",
+                        key=H.digest([desc["nodes"], desc.get("hist"), "unobservable"]), stats=dict(nodes=0))
+
+    def _run(self, desc) -> Case:
         hist_fail = None
         if "hist" in desc:
             early = []
@@ -231,6 +241,7 @@ class Prop:
         global _LID
         ks = [ANY_KIND] + list(desc["query"])
         nodes = B.all_nodes(tree._root)
+        call, battery_changed_tree = NH.guarded_call(tree, _call)     # the structure is re-read after every single query
         local = {H.nid(x): i + 1 for i, x in enumerate(nodes)}
         local[0] = 0
         _LID = lambda x: -1 if x is None else local.get(H.nid(x), -7)   # noqa: E731  (-7: not reachable from the root)
@@ -257,7 +268,7 @@ class Prop:
         top = [[on(call(lambda: tree.first_child(k))), on(call(lambda: tree.last_child(k)))] for k in ks]
         obs = [per_node, it, top]
 
-        fail = self.oracle(tree, nodes, ks, obs)
+        fail = battery_changed_tree() or self.oracle(tree, nodes, ks, obs)
         forest = re.sub(r"\(Tz (\d+) ", lambda m: f"(Tz {local[int(m.group(1))]} ", H.coq_forest(tree._root, U))
         coq = f"({forest}, {H.coq_list(H.coq_text(k) for k in desc['query'])})"
         return obs, fail, nodes, coq
@@ -316,5 +327,7 @@ CORPUS = [
     # D28 (typed): equal-comparing siblings under different data_ids
     dict(typed=True, univ=["e:1", "e:1", "e:1"], nodes=[[0, "a", "x", []], [1, "a", "y", []], [2, "b", "z", []]], query=["a", "b"]),
 ]
+
+call = _call      # (imported by C10)
 
 PROP = Prop()
